@@ -1113,33 +1113,52 @@ func parseExactASColonLocal(body string, localBits int) (asn uint16, local uint3
 	if err1 != nil || err2 != nil {
 		return 0, 0, false
 	}
+	// Communities are rendered in canonical decimal, so a pattern such as
+	// ^0100:5$ matches nothing: it must not be promoted to the exact 100:5.
+	if !isCanonicalDecimal(body[:idx], asn64) || !isCanonicalDecimal(body[idx+1:], loc64) {
+		return 0, 0, false
+	}
 	return uint16(asn64), uint32(loc64), true
+}
+
+// isCanonicalDecimal reports whether s is exactly the decimal rendering of n
+// (no leading zeros, sign or spaces), i.e. a literal a rendered community can contain.
+func isCanonicalDecimal(s string, n uint64) bool {
+	return strconv.FormatUint(n, 10) == s
 }
 
 func isWildcardASN(lhs string) bool {
 	return lhs == `[0-9]*` || lhs == `[0-9]+` || lhs == `\d*` || lhs == `\d+`
 }
 
+// isWildcardLocal reports whether everything after the first colon of the
+// pattern is a single "any local-admin value" wildcard (optionally followed by
+// $). A wildcard that merely ends the pattern, as in ^100:\d+:\d+$, does not
+// qualify: that pattern requires a second colon and matches no community.
 func isWildcardLocal(s string) bool {
 	s = strings.TrimSuffix(s, "$")
-	return strings.HasSuffix(s, `:\d+`) || strings.HasSuffix(s, `:[0-9]+`) || strings.HasSuffix(s, `:.*`)
+	idx := strings.IndexByte(s, ':')
+	if idx < 0 {
+		return false
+	}
+	rest := s[idx+1:]
+	return rest == `\d+` || rest == `[0-9]+` || rest == `.*`
 }
 
 func parseLocalAdminSet(rhs string) (*localAdminBitmap, bool) {
-	rhs = strings.TrimSpace(rhs)
 	var locals []uint16
 	switch {
 	case strings.HasPrefix(rhs, "(") && strings.HasSuffix(rhs, ")"):
 		for _, tok := range strings.Split(rhs[1:len(rhs)-1], "|") {
-			n, err := strconv.ParseUint(strings.TrimSpace(tok), 10, 16)
-			if err != nil {
+			n, err := strconv.ParseUint(tok, 10, 16)
+			if err != nil || !isCanonicalDecimal(tok, n) {
 				return nil, false
 			}
 			locals = append(locals, uint16(n))
 		}
 	default:
 		n, err := strconv.ParseUint(rhs, 10, 16)
-		if err != nil {
+		if err != nil || !isCanonicalDecimal(rhs, n) {
 			return nil, false
 		}
 		locals = []uint16{uint16(n)}
@@ -1209,7 +1228,15 @@ func extractLiteralASN(s string) (uint16, bool) {
 		return 0, false
 	}
 	asn, err := strconv.ParseUint(s[start:start+idx], 10, 16)
-	return uint16(asn), err == nil
+	if err != nil || !isCanonicalDecimal(s[start:start+idx], asn) {
+		return 0, false
+	}
+	// the colon must be a literal one: in ^100:?5:7$ it is optional, so the
+	// pattern also matches 1005:7 and says nothing about the ASN.
+	if next := start + idx + 1; next < len(s) && strings.IndexByte("?*+{", s[next]) >= 0 {
+		return 0, false
+	}
+	return uint16(asn), true
 }
 
 func compileCommunityMatcher(re *regexp.Regexp, listIndex int) communityMatcher {
